@@ -75,7 +75,7 @@ fn short_loc(loc: String) -> String {
         Some(i) if loc.contains("/repo/") || !loc.starts_with('/') => loc[i..].to_string(),
         _ => {
             let comps: Vec<&str> = loc.split('/').collect();
-            comps[comps.len().saturating_sub(4)..].join("/")
+            comps[comps.len().saturating_sub(3)..].join("/")
         }
     }
 }
@@ -110,7 +110,7 @@ pub fn guard<T>(f: impl FnOnce() -> T) -> Result<T, PanicInfo> {
                 _ => {
                     // keep the crate name for panics inside dependencies or std
                     let comps: Vec<&str> = loc.split('/').collect();
-                    comps[comps.len().saturating_sub(4)..].join("/")
+                    comps[comps.len().saturating_sub(3)..].join("/")
                 }
             };
             Err(PanicInfo { loc, msg })
